@@ -233,6 +233,7 @@ void ep_curve_init(void) {
 		ctx->ep_ptr[i] = &(ctx->ep_pre[i]);
 	}
 #endif
+	ctx->ep_id = 0;
 	ep_set_infty(&ctx->ep_g);
 	bn_make(&ctx->ep_r, RLC_FP_DIGS);
 	bn_make(&ctx->ep_h, RLC_FP_DIGS);
